@@ -361,9 +361,6 @@ def main(out_path: str):
     _sets.sort(key=lambda x: "OPS_MATH" in x)
     parts.append(list_s("defaultHyphenTypes", _sets[0] if len(_sets) == 2 else [], "utils.default_is_dynamic: element types whose literal '-' is not an operator"))
     parts.append(list_s("defaultDynamicTokenNames", _sets[1] if len(_sets) == 2 else [], "utils.default_is_dynamic: lexer rule names that make a default dynamic"))
-    # C10 / F8: does Survey.xml reject a trigger that is not exactly one reference to a visible question? (fixes/F8.diff)
-    parts.append("/-- pyxform.survey defines TRIGGER_NOT_VISIBLE_QUESTION (the F8 repair is present) -/\ndef triggerMustBeVisibleQuestion : Bool := "
-                 + ("true" if hasattr(survey, "TRIGGER_NOT_VISIBLE_QUESTION") else "false"))
     # C12: container backends (dataclass fields, parser order, regex sources)
     import dataclasses as _dc
     parts.append(list_s("definitionDataFields", [f.name for f in _dc.fields(xls2json_backends.DefinitionData)], "xls2json_backends.DefinitionData field names, in order"))
